@@ -308,6 +308,61 @@ func checkInsertion(c *Check, fn *ssa.Function, s ssa.CallInstruction, getter, c
 	i := vIs(idxV)
 	old := vIs(oldV)
 	iphi, isPhi := strip(idxV).(*ssa.Phi)
+	if isPhi && !ascendingIndex(idxV) && len(iphi.Edges) == 2 {
+		// i := len(list); for j := range list { if new outranks list[j] { i = j; break } }: the index is
+		// φ(len(list) where the walk was exhausted, j where it stopped)
+		var jv ssa.Value
+		lenEdge, jEdge := -1, -1
+		for k, e := range iphi.Edges {
+			switch {
+			case vLen(old)(e):
+				lenEdge = k
+			case ascendingIndex(e):
+				jv, jEdge = e, k
+			}
+		}
+		if jv != nil && lenEdge >= 0 {
+			j := vIs(jv)
+			less := cCmp(token.LSS, vCall(style, vIs(newV)), vCall(style, vElem(old, j)))
+			notLess := edgesWhere(fn, less, false)
+			isLess := edgesWhere(fn, less, true)
+			atEnd := edgesWhere(fn, cCmp(token.LSS, j, vLen(old)), false)
+			blk := iphi.Block()
+			okJ := len(isLess) > 0 && edgeGuarded(fn, isLess, blk.Preds[jEdge], blk)
+			okLen := len(atEnd) > 0 && edgeGuarded(fn, atEnd, blk.Preds[lenEdge], blk)
+			// moving on to the next element requires that the new node does not outrank this one
+			okAdvance := len(notLess) > 0
+			if ji, isI := strip(jv).(ssa.Instruction); isI {
+				hb := ji.Block()
+				allInstrs(fn, func(in ssa.Instruction) {
+					v, isV := in.(ssa.Value)
+					if !isV || !vCall(style, vElem(old, j))(v) {
+						return
+					}
+					if x, _ := (Query{Fn: fn, Cut: notLess}).After(in, func(y ssa.Instruction) bool {
+						return y.Block() == hb && len(hb.Instrs) > 0 && hb.Instrs[0] == y
+					}); x != nil {
+						okAdvance = false
+					}
+				})
+			} else {
+				okAdvance = false
+			}
+			in3, path3 := Query{Fn: fn, Cut: union(isLess, atEnd)}.FromEntry(isInstr(s))
+			switch {
+			case !okJ || !okAdvance:
+				c.Bad(key+":comparator", pos, "the walk does not stop at the first sibling that the new node STRICTLY outranks (style(new) < style(existing)), or moves on past one it outranks")
+			case !okLen:
+				c.Bad(key+":comparator", pos, "the default position len(list) is used although the walk was not exhausted")
+			case in3 != nil:
+				c.Bad(key+":comparator", pos, "the walk can be left by a condition other than `new outranks list[j]` or the end of the list", blockPath(path3))
+			default:
+				c.OK(key+":comparator", pos, "i = first j with style(new) < style(list[j]), else len(list); insert at i (strict <, stable)", numInstrs(fn))
+			}
+			checkListNotStale(c, fn, s, oldV, getter, key, newV)
+			return
+		}
+	}
 	if !isPhi || !ascendingIndex(idxV) {
 		c.Bad(key+":scan", pos, "insertion index is not a forward scan starting at 0: "+vstr(idxV))
 		return
@@ -879,7 +934,16 @@ func checkDispatchEntry(c *Check) {
 		okL, okS := false, false
 		for _, ci := range callsNamed(m, "(*route.baseTree).matchLeaf") {
 			// the leaves are reached through the tree itself or handed over as its `leaves` list
-			if a0 := ci.Common().Args[0]; (recv(a0) || vField(recv, "leaves")(a0)) && rest(ci.Common().Args[1]) {
+			// path[next:] itself, or `before` of strings.Cut(path[next:], "/") — the whole string where no
+			// separator was found, which is the edge tested below
+			restOrBefore := func(v ssa.Value) bool {
+				if rest(v) {
+					return true
+				}
+				c, k, sep, ok := cutPart(v)
+				return ok && k == 0 && sep == "/" && rest(c.Call.Args[0])
+			}
+			if a0 := ci.Common().Args[0]; (recv(a0) || vField(recv, "leaves")(a0)) && restOrBefore(ci.Common().Args[1]) {
 				g := edgesWhere(m, cCmp(token.EQL, idx, vConstInt(-1)), true)
 				if ok, _ := guardedBy(m, g, isInstr(ci)); ok && len(g) > 0 {
 					okL = true
